@@ -1043,6 +1043,17 @@ fn gen_opt(d: &mut D, vocab: &[&str], variant_supports: bool) -> Opt {
         let key = if n == "supports" && variant_supports { "v_supports" } else { n };
         return valid_forms(key)[0].clone();
     }
+    // a known word behind a path prefix is another, unknown key (`::map`, `m::skip`)
+    if d.ratio(1, 24) {
+        let w = *d.pick(vocab);
+        let name = if d.ratio(2, 3) { format!("::{}", w) } else { format!("m::{}", w) };
+        let text = match d.below(3) {
+            0 => name.clone(),
+            1 => format!("{} = f", name),
+            _ => format!("{} = \"x\"", name),
+        };
+        return Opt { name, text, valid: true, truthy: false };
+    }
     let mut n = *d.pick(vocab);
     let key = if n == "supports" && variant_supports { "v_supports" } else { n };
     if n == "skip" && d.ratio(1, 5) {
